@@ -381,6 +381,30 @@ def run_readall(max_len, max_cuts):
             viol.append({'clause': 'C14.readall', 'message': '%s.readAll(%d) with chunks at %r returned %r'
                          % (type(sock).__name__, L, cuts, box), 'sig': {}})
             return {'n': n, 'keys': n, 'viol': viol, 'sample': None}
+    # write(): every pattern of short send() results must still put exactly the bytes on the wire
+    for L in range(1, max_len + 1):
+      for k in range(0, max_cuts + 1):
+        for cuts in itertools.combinations(range(1, L), k):
+          n += 1
+          pts = [0] + list(cuts) + [L]
+          net.send_script = [b - a for a, b in zip(pts, pts[1:])]
+          before = len(conn.sent)
+          box = {}
+
+          def wr():
+            try:
+              sock.write(data[:L])
+              box['ok'] = True
+            except Exception as e:  # noqa
+              box['e'] = e
+          gevent.spawn(wr)
+          vloop.run_ready()
+          got = bytes(conn.sent[before:])
+          net.send_script = None
+          if got != data[:L] or 'ok' not in box:
+            viol.append({'clause': 'C14.write', 'message': '%s.write of %d bytes with send() accepting %r bytes at a time put %r on the wire (%r)'
+                         % (type(sock).__name__, L, [b - a for a, b in zip(pts, pts[1:])], got, box), 'sig': {}})
+            return {'n': n, 'keys': n, 'viol': viol, 'sample': None}
     # EOF in the middle must raise, not return short
     box = {}
 
